@@ -3,21 +3,32 @@ from . import resources_common as rc
 from ..adapters.resources import FACETS_TREE
 
 LENIENT = [
-    'C11: a node that is still held by some map (even shadowed in a deeper layer) is never assigned again — one '
-    'parent pointer cannot describe two places; assignments that would create a cycle are not generated',
+    'C11: a node that is still held by a map is assigned again only in one controlled way: a direct child of a staging '
+    'map (root-level, outside the main tree) is moved into the main tree; its back-links follow the latest assignment '
+    'and the superseded place in the staging map is exempt from the back-link demand.  No node is ever twice inside '
+    'one tree; assignments that would create a cycle are not generated',
     'C11: back-links of nodes no map holds any more (replaced, popped, shadowed at the time of a clear) are not compared',
     'C11: m[a][b] through a handle in the middle may fail with any exception class; only [] on the map itself '
     'must raise KeyError',
     'C11: the number and content of ChainMap layers is white-box (wb_layers): a divergence there alone abandons '
     'the path instead of failing it',
 ]
+SET_CLEAR = '{"set", "clear"}'
 
 
 def _configs(thorough):
+    cfgs = {
+        # all three mutators, layered maps, pre-populated maps built off the tree
+        'c11_tree': (rc.consts(maps=3, handles=3 if thorough else 2, depth=2, ops='Ops_Tree'), 3),
+        # composite keys of depth 3 over four maps: leading parts that exist (explicit or implicit) followed by parts
+        # that have to be created, one or two implicit maps per call
+        'c11_deep': (rc.consts(maps=4, handles=1, depth=3, ops=SET_CLEAR), 2),
+        # resources moved from a staging map into the main tree, either map cleared afterwards
+        'c11_staging': (rc.consts(maps=3, handles=2, depth=2, ops=SET_CLEAR, staging=True), 2),
+    }
     if thorough:
-        return {'c11_tree': rc.consts(maps=3, handles=3, depth=2, ops='Ops_Tree'),
-                'c11_deep': rc.consts(maps=3, handles=2, depth=3, ops='Ops_Tree')}
-    return {'c11_tree': rc.consts(maps=3, handles=2, depth=2, ops='Ops_Tree')}
+        cfgs['c11_deep_layers'] = (rc.consts(maps=3, handles=2, depth=3, ops='Ops_Tree'), 3)
+    return cfgs
 
 
 def run(res):
@@ -26,21 +37,24 @@ def run(res):
     # non-vacuity: each as-implemented deviation violates the declarative layer
     join = rc.switch_runs(res, [('c11_asimpl_' + sw, rc.consts(maps=3, handles=2, depth=2, ops='Ops_Tree', **{sw: False}),
                                  rc.INV_TREE, rc.PROP_TREE, expect)
-                                for sw, expect in (('ImplicitMapsLinked', ('BackLinks',)),
+                                for sw, expect in (('ImplicitMapsLinked', ('BackLinks', 'RootBackLinks')),
                                                    ('ClearAllLayers', ('LatestWins', 'ClearDetaches', 'PathEquivalence')),
                                                    ('SetItemPopsAllLayers', ('PathEquivalence', 'HandleXorMap', 'LatestWins')))])
-    for name, (c, ov) in _configs(thorough).items():
-        rc.check_and_replay(res, name, c, ov, rc.INV_TREE, rc.PROP_TREE, own=FACETS_TREE, probe=True,
-                            depth_all=3, walks=3000 if thorough else 1000, walk_len=25, before_replay=join)
+    cfgs = _configs(thorough)
+    pre = rc.dumps_in_parallel(res, {n: co for n, (co, _d) in cfgs.items()}, rc.INV_TREE, rc.PROP_TREE)
+    join()
+    for name, ((c, ov), depth_all) in cfgs.items():
+        rc.check_and_replay(res, name, c, ov, rc.INV_TREE, rc.PROP_TREE, own=FACETS_TREE, probe=True, depth_all=depth_all,
+                            walks=3000 if thorough else 600, walk_len=25, pre=pre[name])
         if res.violations:
             break
-    join()
     if thorough and not res.violations:
-        # (M) only: four maps (two implicit maps at once, deeper subtrees replaced); too large to dump
-        c, ov = rc.consts(maps=4, handles=2, depth=2, ops='Ops_Tree')
-        res.model_check('ResourcesMC', 'c11_four_maps', c, invariants=rc.INV_TREE, properties=rc.PROP_TREE, overrides=ov)
+        # (M) only, too large to dump: four maps with layers; staging with layers
+        for name, co in (('c11_four_maps', rc.consts(maps=4, handles=2, depth=2, ops='Ops_Tree')),
+                         ('c11_staging_layers', rc.consts(maps=3, handles=2, depth=2, ops='Ops_Tree', staging=True))):
+            res.model_check('ResourcesMC', name, co[0], invariants=rc.INV_TREE, properties=rc.PROP_TREE, overrides=co[1])
 
 
 def replay(res, path):
-    cfgs = {n: (c, ov, FACETS_TREE, True) for n, (c, ov) in _configs(res.tier == 'thorough').items()}
+    cfgs = {n: (c, ov, FACETS_TREE, True) for n, ((c, ov), _d) in _configs(res.tier == 'thorough').items()}
     rc.replay_file(res, path, cfgs)
